@@ -11,19 +11,19 @@ pub(crate) fn track_and_groundspeed(
     is_supersonic: bool,
 ) -> (Option<u32>, Option<u32>) {
     let sp_west = match flag_and_range_value(message, 46, 47, 56) {
-        Some((dir_west, speed_west)) => match dir_west {
+        Some((dir_west, speed_west)) if speed_west != 0 => match dir_west {
             1 => -(speed_west as f64 - 1.0),
             _ => speed_west as f64 - 1.0,
         },
-        _ => 0.0,
+        _ => return (None, None),
     };
 
     let sp_south = match flag_and_range_value(message, 57, 58, 67) {
-        Some((dir_south, speed_south)) => match dir_south & 1 {
+        Some((dir_south, speed_south)) if speed_south != 0 => match dir_south & 1 {
             1 => -(speed_south as f64 - 1.0),
             _ => speed_south as f64 - 1.0,
         },
-        _ => 0.0,
+        _ => return (None, None),
     };
 
     let supersonic = |x| if is_supersonic { x * 4 } else { x };
